@@ -47,15 +47,17 @@ def invalid_cond(P, n):
     return SymBool(pipeline.validity_regions(c)[1])
 
 
-def body(ctx, conv, shape, bounds, as_coords, nan_cells=None, mesh_opts=None, descending=False, extent=True, bounds_first=False, coord_dtype=None, bounds_coords=False, explicit=False):
+def body(ctx, conv, shape, bounds, as_coords, nan_cells=None, mesh_opts=None, descending=False, extent=True, bounds_first=False, coord_dtype=None, bounds_coords=False, explicit=False, rotated=False):
     snap_holder = [coord_dtype]
     pipeline.builders.BOUNDS_AS_COORDS = bounds_coords
     pipeline.EXPLICIT_NAMES = explicit
+    pipeline.ROTATED_AXES = rotated
     try:
         return _body(ctx, conv, shape, bounds, as_coords, nan_cells, mesh_opts, descending, extent, bounds_first, snap_holder)
     finally:
         pipeline.builders.BOUNDS_AS_COORDS = False
         pipeline.EXPLICIT_NAMES = False
+        pipeline.ROTATED_AXES = False
 
 
 def _body(ctx, conv, shape, bounds, as_coords, nan_cells, mesh_opts, descending, extent, bounds_first, snap_holder):
@@ -245,6 +247,11 @@ def cases(tier):
         kw = dict(conv=conv, shape=shape, bounds=bounds, as_coords=(bounds == 'none'), nan_cells=() if conv == 'cf1d' else None, explicit=True)
         yield Case(f'{conv}:{shape[0]}x{shape[1]}:{bounds}:explicit-names:extent', body, dict(kw, extent=True),
                    patches=PM['rect' if conv == 'cf1d' else 'all'], max_paths=20000, split=32)
+    # rotated-pole layout: 1-D grid_latitude / grid_longitude axes stored ahead of the true 2-D coordinates
+    for conv, shape, bounds, as_coords in (('cf2d', (2, 3), 'stored', True), ('cf2d', (2, 2), 'none', False)):
+        kw = dict(conv=conv, shape=shape, bounds=bounds, as_coords=as_coords, nan_cells=None, rotated=True)
+        yield Case(f'{conv}:{shape[0]}x{shape[1]}:{bounds}:{"coords" if as_coords else "vars"}:rotated-axes:extent', body, dict(kw, extent=True),
+                   patches=PM['all'], max_paths=20000, split=32)
     meshes = ['tq', 'tri'] if q else ['tq', 'tri', 'tqp', 'fan']
     for mesh in meshes:
         for mo in (dict(), dict(start_index=1, fill='attr'), dict(transposed=True, coords_as_coords=False),
